@@ -2,7 +2,7 @@
    PARTIAL: the logic of force points and the algebra of chunked reductions are proved; dask's runtime
    (optimiser, scheduler, thread interleavings, float summation order) is not modelled. *)
 From Coq Require Import String ZArith List Bool.
-From XV Require Import Base.Scalar Base.Sum Gen.T7lazy Model.Lazy Proofs.C12_proofs.
+From XV Require Import Base.Scalar Base.Sum Gen.T7lazy Gen.T3 Model.Lazy Proofs.C12_proofs Proofs.C15_opts.
 Import ListNotations.
 
 (* the table of force points is regenerated from the source on every run; with compute = False and
@@ -41,3 +41,15 @@ Theorem C12_chunk_regroup : forall (F : Type) (K : Ops F), FieldLaws K -> forall
   chunked_sum K off (s1 ++ s2) f = fadd K (chunked_sum K off s1 f) (chunked_sum K (off + fold_right Nat.add 0%nat s1) s2 f).
 Proof. exact (@chunk_regroup). Qed.
 Print Assumptions C12_chunk_regroup.
+
+(* the deferred fit runs the algorithm the computed fit runs: apart from the `compute` option itself no option handed to
+   an SVD back-end mentions the compute flag (sketch size, power iterations and seed are the same) *)
+Theorem C12_solver_options_independent_of_compute :
+  forallb opt_independent_of_compute dec_solver_options = true /\ forallb opt_independent_of_compute svd_solver_options = true.
+Proof. exact options_independent_of_compute. Qed.
+Print Assumptions C12_solver_options_independent_of_compute.
+
+Theorem C12_compute_dependent_option_refuted :
+  opt_independent_of_compute ("default", "n_power_iter", "4 if solver_kwargs['compute'] else 0")%string = false.
+Proof. exact compute_dependent_option_refuted. Qed.
+Print Assumptions C12_compute_dependent_option_refuted.
